@@ -33,7 +33,9 @@ Tol6(x) == 10 + Abs(x) \div 100000                        \* 1e-5 absolute + 1e-
 Close6(x, y) == Abs(x - y) <= Tol6(x) + Tol6(y)
 ThinVerdict(e) ==
   IF e.raised = 1 THEN {"DistanceTotal"}
-  ELSE IF e.mode = "rt" /\ ~NoSignChange(e.m1, e.m2) THEN {}
+  \* Gauss rule with a sign change inside a cell: judged against the harness' own quadrature of the unique flux (E4)
+  ELSE IF e.mode = "rt" /\ ~NoSignChange(e.m1, e.m2) THEN
+       (IF e.gauss6 >= 0 /\ e.d_6 >= 0 /\ ~Close6(e.d_6, e.gauss6) THEN {"UniqueFluxCost"} ELSE {})
   ELSE IF e.d2 = Cost2(e.mode, e.h, e.a, e.m1, e.m2) THEN {} ELSE {"UniqueFluxCost"}   \* e.d2 = 2 d, an integer (near-integer test 1e-5 in the harness)
 RelVerdict(e) ==
   (IF e.raised = 1 THEN {"DistanceTotal"} ELSE {})
